@@ -361,6 +361,7 @@ class Port:
         self.network = None
         self.channel_info = f"sim:{name}"
         self.is_shutdown = False
+        self.inbox = []
 
     def __bool__(self):
         return True
@@ -439,6 +440,13 @@ class SimBus:
                          bool(msg.is_extended_id)))
         if self.mode == "inline":
             self._deliver(src, msg)
+        elif self.mode == "ports":
+            # one receive queue per attached network (each has its own notifier thread in reality)
+            for port in self.ports:
+                if port is not src:
+                    port.inbox.append((src, msg))
+                    if W.sched is not None:
+                        W.sched.wake(port)
         else:
             self.pending.append((src, msg))
             if W.sched is not None:
@@ -479,6 +487,16 @@ class SimBus:
                     replies = fn(m.arbitration_id, bytes(m.data), bool(m.is_remote_frame)) or ()
                     for rid, rdata in replies:
                         self.inject(rid, rdata, src_name=name)
+
+    def pump_port(self, port, n=None):
+        """Deliver up to n frames from one network's receive queue (mode "ports")."""
+        k = 0
+        while port.inbox and (n is None or k < n):
+            src, msg = port.inbox.pop(0)
+            if port.network is not None:
+                port.network.listeners[0].on_message_received(self._copy(msg))
+            k += 1
+        return k
 
     def pump(self, n=None):
         """Deliver pending frames (deferred / manual mode). Returns number delivered."""
